@@ -25,6 +25,7 @@ import (
 	"go/token"
 	"path/filepath"
 	"reflect"
+	"sort"
 
 	"github.com/uber-go/gopatch/internal/data"
 	"github.com/uber-go/gopatch/internal/goast"
@@ -531,7 +532,7 @@ func (r ImportsReplacer) Cleanup(d data.Data, f *ast.File, added []addedImport) 
 		// If this import was replaced by an added import, kill it.
 		_, replaced := taken[pkgName]
 		if replaced || !usesNameAsTopLevel(f, pkgName) {
-			astutil.DeleteNamedImport(r.Fset, f, importName, imp)
+			deleteNamedImport(r.Fset, f, importName, imp)
 		}
 	}
 
@@ -578,4 +579,61 @@ func usesNameAsTopLevel(f *ast.File, name string) bool {
 		return false
 	})
 	return used
+}
+
+// deleteNamedImport deletes the import with the given name and path from the
+// file. It is astutil.DeleteNamedImport, except that comments outside the
+// import declarations stay: astutil also deletes the comment that ends on
+// the line of the deleted import in front of it, meaning a comment between
+// the keyword and the import, and once an earlier change has merged the
+// lines of the file that can be the comment behind the package clause.
+func deleteNamedImport(fset *token.FileSet, f *ast.File, name, path string) {
+	type region struct{ pos, end token.Pos }
+	var (
+		decls    []region
+		ofImport = make(map[*ast.CommentGroup]struct{})
+	)
+	for _, decl := range f.Decls {
+		d, ok := decl.(*ast.GenDecl)
+		if !ok || d.Tok != token.IMPORT {
+			continue
+		}
+		decls = append(decls, region{d.Pos(), d.End()})
+		for _, spec := range d.Specs {
+			if spec, ok := spec.(*ast.ImportSpec); ok {
+				ofImport[spec.Doc] = struct{}{}
+				ofImport[spec.Comment] = struct{}{}
+			}
+		}
+	}
+	before := append([]*ast.CommentGroup(nil), f.Comments...)
+
+	astutil.DeleteNamedImport(fset, f, name, path)
+
+	kept := make(map[*ast.CommentGroup]struct{}, len(f.Comments))
+	for _, cg := range f.Comments {
+		kept[cg] = struct{}{}
+	}
+	restored := false
+	for _, cg := range before {
+		if _, ok := kept[cg]; ok || len(cg.List) == 0 {
+			continue
+		}
+		if _, ok := ofImport[cg]; ok {
+			continue
+		}
+		inside := false
+		for _, d := range decls {
+			inside = inside || (cg.Pos() >= d.pos && cg.End() <= d.end)
+		}
+		if !inside {
+			f.Comments = append(f.Comments, cg)
+			restored = true
+		}
+	}
+	if restored {
+		sort.SliceStable(f.Comments, func(i, j int) bool {
+			return f.Comments[i].Pos() < f.Comments[j].Pos()
+		})
+	}
 }
